@@ -4,7 +4,7 @@ set -u
 d="$1"; prop="$2"; tier="${3:-quick}"
 cd /verif
 git -C /repo apply "/verif/$d/patch.diff" || { echo "patch does not apply"; exit 2; }
-./check "$prop" "$tier"; rc=$?
+VERIF_EVIDENCE_DIR=/verif/out/evidence-seeded ./check "$prop" "$tier"; rc=$?
 git -C /repo checkout -- .
 echo "seedrun: $d on $prop -> exit $rc"
 exit 0
